@@ -80,6 +80,9 @@ def gen_module(rng, cid, n_items=None):
         else:
             items.append(rng.choice(soup.MOD_ITEMS_OTHER))
     attrs = rng.sample(["/// module docs", "#[allow(dead_code)]", "#[cfg(all())]"], rng.randint(0, 1))
+    if rng.random() < 0.15:
+        # inner attributes open the module body
+        items = rng.sample(soup.INNER_ATTRS, rng.randint(1, 2)) + items
     src = "#[::entrait::entrait(%sTr)] /*@inv*/\n%s\n%s mod the_mod {\n%s\n}\n" % (
         rng.choice(["", "pub ", "pub(crate) "]), "\n".join(attrs), rng.choice(["", "pub", "pub(crate)"]), "\n".join("    " + it.replace("\n", "\n    ") for it in items))
     kinds = len({it.split("(")[0].split("{")[0].strip().split(" ")[0] for it in items})
